@@ -5,6 +5,7 @@ import SciVerif.Props.C05
 import SciVerif.Tie.Pins
 /-! Tie A obligations for C05 on the current source. -/
 namespace SciVerif.Tie
+-- PIN-NOT: Scipipe.Task_executeCommand Scipipe.Task_formatCommand Scipipe.FinalizePaths Scipipe.Task_finalizePaths Scipipe.Task_anyOutputsExist Scipipe.Task_writeAuditLogs
 -- functions the model relies on without an obligation of its own naming them (pinned by bin/mkpins):
 -- PIN-ALSO: Scipipe.getBufsize Scipipe.NewSink Scipipe.Sink_From Scipipe.Sink_FromParam Scipipe.Sink_in Scipipe.Sink_paramIn Scipipe.BaseProcess_CloseAllOutPorts Scipipe.BaseProcess_CloseOutParamPorts Scipipe.Workflow_SetSink Scipipe.NewWorkflow
 open SciVerif.Generated
@@ -42,6 +43,7 @@ theorem c05_on_source (ls : List Proc.Label) (s : Proc.PSt)
 
 
 
+
 -- BEGIN PINS (written by bin/mkpins; do not edit by hand)
 /-- the Go functions this property's model and obligations were written against have exactly the
 pinned skeletons (SHA-256 prefix of the atom list) -/
@@ -50,7 +52,6 @@ theorem pinned_skeletons_c05 :
     [("Scipipe.#decls", "7633eb8a74616d59"),
      ("Scipipe.BaseProcess_CloseAllOutPorts", "50efd798f96bd05b"),
      ("Scipipe.BaseProcess_CloseOutParamPorts", "b55e88685818f821"),
-     ("Scipipe.FinalizePaths", "291fc0cefa37cea9"),
      ("Scipipe.NewSink", "a492528b88e6e985"),
      ("Scipipe.NewWorkflow", "17163fd29d8fb373"),
      ("Scipipe.Process_Run", "05880ea16e590fb1"),
@@ -60,11 +61,6 @@ theorem pinned_skeletons_c05 :
      ("Scipipe.Sink_in", "e43f9286d549e5df"),
      ("Scipipe.Sink_paramIn", "51d9e45f831b6ec7"),
      ("Scipipe.Task_Execute", "40fd1fec0c69deb2"),
-     ("Scipipe.Task_anyOutputsExist", "0609a842b7aaf7a8"),
-     ("Scipipe.Task_executeCommand", "98e77d849c0638cb"),
-     ("Scipipe.Task_finalizePaths", "9cd0530d4e86fa92"),
-     ("Scipipe.Task_formatCommand", "ccbe98735ce5c7d6"),
-     ("Scipipe.Task_writeAuditLogs", "5ee6e36ed2566be6"),
      ("Scipipe.Workflow_IncConcurrentTasks", "acd0e561d4db6cb8"),
      ("Scipipe.Workflow_SetSink", "7da5ff0b1e07295f"),
      ("Scipipe.Workflow_readyToRun", "378c8cdc8eb779a8"),
